@@ -194,6 +194,12 @@ def judge_resume(params, ro, full_requests, snap_rows, reqs_before, out2, full_r
     for u, (st, tc) in snap_rows.items():
         if st == 'done' and req2.get(u, 0) > allowed.get(u, 0):
             return 'URL done before the kill was requested again after resume: %s' % u
+    full_set = set(full_requests)
+    for u in sorted(req2):
+        if u not in full_set:
+            # e.g. a host that run 1 merely saw in a link is treated as a start host by run 2
+            return ('the resumed run requests a URL that an uninterrupted crawl never '
+                    'requests: %s' % u)
     have = set(reqs_before) | set(req2)
     for u in full_requests:
         if u not in have:
@@ -260,7 +266,7 @@ def jobs(tier, seed):
     js = []
     if tier == 'quick':
         combos = [('cycle', 'r'), ('redir', 'r'), ('reqs', 'r-p'), ('depth', 'r-l2'),
-                  ('cycle', 'r-t1')]
+                  ('cycle', 'r-t1'), ('twohost', 'r')]
         concs = (1, 2)
     else:
         combos = [('cycle', 'r'), ('redir', 'r'), ('reqs', 'r-p'), ('depth', 'r-l2'),
